@@ -26,8 +26,8 @@ use tvmon::report::*;
 fn main() {
     let ctx = Ctx::from_env("C09", "exploration");
     let deep = !ctx.quick();
-    let n_store = ctx.scale(170, 9000) as u64;
-    let n_index = ctx.scale(48, 1300) as u64;
+    let n_store = ctx.scale(240, 9000) as u64;
+    let n_index = ctx.scale(64, 1300) as u64;
     let slow: std::sync::Mutex<Vec<(f64, String)>> = std::sync::Mutex::new(vec![]);
     let dbg = std::env::var("C09_DEBUG").is_ok();
     let mut rep = run_cases(&ctx, "store", n_store, |c, rng, rep| {
@@ -64,7 +64,7 @@ fn main() {
          size and through get()/Searcher::doc in adversarial orders. A store is non-trivial when it has >= 2 blocks (by the \
          replayed block-cutting rule) and >= 2 docs and every comparison passed; distinct = (origin, compressor, block-size \
          class, block-count class, dedicated thread)",
-        ctx.scale(40, 250),
+        ctx.scale(120, 600),
         &[
             "doc id -> model document at index level is taken from the non-stored fast field `id` (independent of the doc store)",
             "order of values within one field is demanded; order across different fields and order of keys inside a JSON object are only recorded (counters obs_*)",
